@@ -65,7 +65,7 @@ def _run_cvc5(smt2: str, timeout_ms: int, strings=True):
         os.unlink(path)
 
 
-def discharge(ob: Obligation, use_cvc5=True, z3_timeout=None, cvc5_timeout=None) -> Obligation:
+def discharge(ob: Obligation, use_cvc5=True, z3_timeout=None, cvc5_timeout=None, retry=True) -> Obligation:
     t0 = time.time()
     if not ob.expect_sat and z3.is_false(z3.simplify(ob.goal)):
         # the clause evaluated to False on this path (trace predicates, undeclared exceptions): it fails unless the
@@ -108,7 +108,7 @@ def discharge(ob: Obligation, use_cvc5=True, z3_timeout=None, cvc5_timeout=None)
     else:
         ob.status = "unknown"
         ob.detail = "z3: " + s.reason_unknown()
-        if not ob.expect_sat and _small_universe_refutation(ob):
+        if not ob.expect_sat and retry and _small_universe_refutation(ob):
             ob.time_s = time.time() - t0
             return ob
         if use_cvc5:
@@ -122,7 +122,7 @@ def discharge(ob: Obligation, use_cvc5=True, z3_timeout=None, cvc5_timeout=None)
                 ob.detail += " | cvc5: " + verdict
             else:
                 ob.detail += " | cvc5: unknown"
-        if ob.status == "unknown" and not ob.expect_sat and not FAST:
+        if ob.status == "unknown" and not ob.expect_sat and not FAST and retry:
             # last resort before giving up (verdicts must not flip when the machine is busy): longer budget, other seed
             s2 = z3.Solver()
             s2.set("timeout", 3 * (z3_timeout or Z3_TIMEOUT_MS))
